@@ -437,7 +437,8 @@ TRK_UNIT = Unit("C01.contexts_active_by_trickery", TRK, trk_setup,
                 allowed_raise=lambda ctx: BoolVal(True),
                 assumptions=["analyze_with_blocks / inspect_frame / currently_exiting_context stand for their own contracts here "
                              "(table of obj-less Context descriptions keyed by handler offset; blocks with level inside the stack); "
-                             "inspect_frame has its own unit, the other two are decided by the bounded G1 legs only",
+                             "the table shape is proved by unit C01.analyze_with_blocks and inspect_frame has its own unit; which with "
+                             "statement an entry describes and currently_exiting_context are decided by the bounded G1 legs only",
                              "dataclasses.replace copies every field it is not given", "dict.items() iterates the (key, value) pairs of the dict",
                              "id() is injective on live objects"])
 
@@ -508,4 +509,99 @@ CTA_UNIT = Unit("C20.check_trickery_available", CTA, cta_setup,
                              "the self-test itself (generator, contextmanager, warnings) is opaque here: only the lock discipline of the "
                              "verdict is decided"])
 
-UNITS = [CAF_UNIT, STE_UNIT, REF_UNIT, TRK_UNIT, CTA_UNIT]
+
+# ------------------------------------------------------------------------------------------------ analyze_with_blocks
+# The table that _contexts_active_by_trickery joins with the block stack: a FRESH dict of FRESH obj-less, non-exiting Context
+# templates keyed by handler offsets (this discharges the callee contract assumed by the join unit, and states the ownership
+# condition behind C06: nothing of the table is shared between calls).  Which with statement an entry describes - the bytecode
+# layout knowledge - is NOT decided here (bounded G1 legs).
+AWB = LL + "analyze_with_blocks"
+register_class("Instruction")
+
+
+def awb_setup(ex, p):
+    code = sym_ref(p, "code", "code")
+    p.env["code"] = code
+    def bytecode(ex_, p_, args, kw, node):
+        insns = sym_seq(p_, "insns", "list")
+        H0 = p_.snap()
+        p_.pc.append(H0.lo_(insns.t) == 0)
+        p_.add_schema(insns.t, lambda pth, j: Implies(And(j >= 0, j < H0.length(insns.t)),
+                                                      And(is_kind(H0.raw(insns.t, j), "Instruction"), Val.a(H0.raw(insns.t, j)) >= 0,
+                                                          is_exact_kind(H0.getf(H0.raw(insns.t, j), "opname"), "str"),
+                                                          Or(Val.is_none(H0.getf(H0.raw(insns.t, j), "starts_line")), Val.is_intv(H0.getf(H0.raw(insns.t, j), "starts_line"))),
+                                                          Val.is_intv(H0.getf(H0.raw(insns.t, j), "offset")))))
+        return [("ok", p_, SV(insns.t, ty="list"))]
+    def dat(ex_, p_, args, kw, node):
+        v = fresh("store_to")
+        p_.pc.append(Or(Val.is_none(v), And(is_exact_kind(v, "str"), Val.a(v) >= 0)))
+        return [("ok", p_, SV(v))]
+    def pet(ex_, p_, args, kw, node):
+        t = sym_seq(p_, "exc_table", "list")
+        H0 = p_.snap()
+        p_.pc.append(H0.lo_(t.t) == 0)
+        p_.add_schema(t.t, lambda pth, j: Implies(And(j >= 0, j < H0.length(t.t)),
+                                                  And(is_exact_kind(H0.raw(t.t, j), "tuple"), Val.a(H0.raw(t.t, j)) >= 0, H0.length(H0.raw(t.t, j)) == 5,
+                                                      H0.lo_(H0.raw(t.t, j)) == 0)))
+        return [("ok", p_, SV(t.t, ty="list"))]
+    ex.unit.bindings.update({"dis.Bytecode": bytecode, "describe_assignment_target": dat, "_parse_exception_table": pet})
+    return dict(code=code)
+
+
+def awb_entry_ok(H, v):
+    """a table entry: a Context allocated by THIS call, obj-less and not exiting"""
+    return And(is_kind(v, "Context"), Val.a(v) < 0, Val.a(v) >= -H.alloc, H.getf(v, "obj") == NONE, H.getf(v, "is_exiting") == mkbool(False),
+               Val.is_boolv(H.getf(v, "is_async")), Or(Val.is_none(H.getf(v, "varname")), is_exact_kind(H.getf(v, "varname"), "str")),
+               Val.is_intv(H.getf(v, "start_line")))
+
+
+def awb_inv():
+    def qf(ctx):
+        d = ctx.v("with_block_info")
+        return And(d == ctx.v0("with_block_info"), Val.is_intv(ctx.v("current_line")), Val.a(d) < 0, is_exact_kind(d, "dict"))
+    def per_key(ctx, pth, kk):
+        d = ctx.v("with_block_info")
+        return Implies(ctx.H.dhas(d, kk), awb_entry_ok(ctx.H, ctx.H.dget(d, kk)))
+    return Inv("C01.table.scan", qf=qf, dforalls=[("with_block_info", per_key)], dicts=["with_block_info"], header="enumerate(insns)",
+               fields=[(f, None) for f in CTX_FIELDS])
+
+
+def awb_skip_inv():
+    def qf(ctx):
+        return And(Val.is_intv(ctx.v("skip_insns")), Val.i(ctx.v("skip_insns")) >= 1, ctx.v("with_block_info") == ctx.v0("with_block_info"))
+    return Inv("C01.table.extended_arg_skip", qf=qf, header="EXTENDED_ARG")
+
+
+def awb_post(ctx):
+    r = ctx.result.t
+    kk = fresh("ksk")
+    ctx.p.dinst(r, kk)
+    return And(is_exact_kind(r, "dict"), Val.a(r) < 0, Implies(ctx.H.dhas(r, kk), awb_entry_ok(ctx.H, ctx.H.dget(r, kk))))
+
+
+AWB_UNIT = Unit("C01.analyze_with_blocks", AWB, awb_setup,
+                post=[Clause("C01.table.fresh_table_of_fresh_objless_nonexiting_templates", awb_post)],
+                bindings=dict(_EB), methods=dict(STD_METHODS), ctors=dict(_CT), known_classes=["Context"],
+                invariants={(AWB, "for#1"): awb_inv(), (AWB, "while#1"): awb_skip_inv()},
+                field_types={"opname": "str"}, options=dict(iter_any_seq=True),
+                allowed_raise=lambda ctx: is_kind(ctx.exc.t, "Exception"),
+                assumptions=["dis.Bytecode yields Instruction objects (opname str, starts_line None/int, offset int); describe_assignment_target "
+                             "returns None or a str; _parse_exception_table yields 5-tuples (own lemma C01.parse_exception_table)",
+                             "WHICH with statement each entry describes (bytecode layout) is not decided by this unit"])
+
+
+# the same two units under the 3.10 configuration (the version tests of the real source select the other branches: SETUP_WITH
+# opcodes instead of BEFORE_WITH + exception table; referents taken from the frame instead of the generator object)
+PY310_CFG = dict(version=(3, 10, 13, "final", 0))
+AWB_UNIT_310 = Unit("C01.analyze_with_blocks@py310", AWB, awb_setup,
+                    post=[Clause("C01.table.fresh_table_of_fresh_objless_nonexiting_templates@py310", awb_post)], cfg=PY310_CFG,
+                    bindings=dict(_EB), methods=dict(STD_METHODS), ctors=dict(_CT), known_classes=["Context"],
+                    invariants={(AWB, "for#1"): awb_inv()}, field_types={"opname": "str"}, options=dict(iter_any_seq=True),
+                    allowed_raise=lambda ctx: is_kind(ctx.exc.t, "Exception"), assumptions=list(AWB_UNIT.assumptions))
+REF_UNIT_310 = Unit("C20.contexts_active_by_referents@py310", REF, ref_setup,
+                    post=[Clause("C20.referents.root_and_exiting_entry@py310", ref_post)], cfg=PY310_CFG,
+                    bindings=dict(_EB), methods=dict(STD_METHODS), ctors=dict(_CT), known_classes=["Context", "ExitingContext"],
+                    invariants={(REF, "for#1"): ref_inv()}, options=dict(iter_any_seq=True), field_types={"__name__": "str"},
+                    allowed_raise=lambda ctx: BoolVal(False), assumptions=list(REF_UNIT.assumptions))
+
+UNITS = [CAF_UNIT, STE_UNIT, REF_UNIT, TRK_UNIT, CTA_UNIT, AWB_UNIT, AWB_UNIT_310, REF_UNIT_310]
